@@ -215,6 +215,12 @@ def step (s : S) (w : List String) : S × String :=
   | ["bhash", b, h] => stepOp s (.bhash b (hashOf h))
   | ["txn", t, b] => stepOp s (.txn t b)
   | ["qtxn", t, h] => stepOp s (.qtxn t (hashOf h))
+  -- statecache.NewEmpty(): a transaction on a never-committed block with hashes nobody else uses (a private world)
+  | ["empty", t] => stepOp (stepOp s (.blk ("~" ++ t) ("~e:" ++ t) ("~p:" ++ t))).1 (.txn t ("~" ++ t))
+  -- statecache.NewBlockTxnCaches
+  | ["blktxn", b, t, h, p] => stepOp (stepOp s (.blk b (hashOf h) (hashOf p))).1 (.txn t b)
+  -- a block cache on a fresh state cache of its own: its world's hashes carry a unique prefix
+  | ["fblk", b, h, p] => stepOp s (.blk b ("~f:" ++ b ++ ":" ++ hashOf h) ("~f:" ++ b ++ ":" ++ hashOf p))
   | ["tset", t, k, v] => stepOp s (.tset t k v)
   | ["trem", t, k] => stepOp s (.trem t k)
   | ["tget", t, k] => stepOp s (.tget t k)
